@@ -29,12 +29,12 @@ fn wait_done(ack: &Arc<tinylfu_cached::cache::command::acknowledgement::CommandA
 pub fn run(seed: u64, out: &str, millis: u64) -> bool {
     let mut sink = Sink::new(out);
     let mut all_ok = true;
-    for (round, (shards, cmdcap, max, buffer_size)) in [(2usize, 1usize, 6i64, 1usize), (2, 4, 1000, 3), (4, 64, 8, 2)].iter().enumerate() {
+    for (round, (shards, cmdcap, max, buffer_size, pool_size)) in [(2usize, 1usize, 6i64, 1usize, 1usize), (2, 4, 1000, 3, 1), (4, 64, 8, 2, 2), (2, 4, 1000, 1, 3)].iter().enumerate() {
         let clock = ManualClock(Arc::new(AtomicU64::new(1_000_000_000_000)));
         let config = ConfigBuilder::new(16, 16, *max)
             .clock(Box::new(clock.clone()))
             .weight_calculation_fn(Box::new(|_k: &u64, _v: &u64, ttl: bool| 1 + if ttl { 24 } else { 0 }))
-            .access_pool_size(1).access_buffer_size(*buffer_size).command_buffer_size(*cmdcap).shards(*shards)
+            .access_pool_size(*pool_size).access_buffer_size(*buffer_size).command_buffer_size(*cmdcap).shards(*shards)
             .ttl_tick_duration(Duration::from_millis(1)).build();
         let cache = Arc::new(CacheD::<u64, u64>::new(config));
         let stop = Arc::new(AtomicBool::new(false));
@@ -124,7 +124,7 @@ pub fn run(seed: u64, out: &str, millis: u64) -> bool {
         let (hits, added, dropped) = (summary.get(&StatsType::CacheHits).unwrap_or(0), summary.get(&StatsType::AccessAdded).unwrap_or(0), summary.get(&StatsType::AccessDropped).unwrap_or(0));
         let buffered: u64 = cache.verif_snapshot().pool_buffers.iter().map(|buffer| buffer.len() as u64).sum();
         if hits != buffered + added + dropped {
-            violations.lock().unwrap().push(format!("C15/records-not-conserved hits={} buffered={} delivered={} dropped={} (pool 1 x buffer {}) after all readers stopped", hits, buffered, added, dropped, buffer_size));
+            violations.lock().unwrap().push(format!("C15/records-not-conserved hits={} buffered={} delivered={} dropped={} (pool {} x buffer {}) after all readers stopped", hits, buffered, added, dropped, pool_size, buffer_size));
         }
         if worst_total.load(Ordering::SeqCst) > *max || least_total.load(Ordering::SeqCst) < 0 {
             violations.lock().unwrap().push(format!("C01/total-out-of-range observed total in [{}, {}] with limit {}", least_total.load(Ordering::SeqCst), worst_total.load(Ordering::SeqCst), max));
